@@ -113,7 +113,7 @@ def post_all(ctx):
 
 
 def main(tier, seed):
-    items = standard_items(seed, tier, 10, 100, bench_quick=3, ps_quick=6, ps_thorough=220)
+    items = standard_items(seed, tier, 10, 50, bench_quick=3, ps_quick=6, ps_thorough=60, bench_thorough=15)
     return analysis_check("C03", tier, seed, items=items, want=["normalized", "recs"],
                           builders=[C.b_normalized, C.b_recs], N=4 if tier == "quick" else 6, post=post_all,
                           assumptions=["the program judged is Polar's normalized program as exported by the harness "
